@@ -39,6 +39,9 @@ PROXY_URLS = {
     'http-user-only': ('http://solo@proxy.local:8080', 'proxy.local', 8080, False, b'solo'),
     'https-default': ('https://sproxy.local', 'sproxy.local', 443, True, None),
     'https-port': ('https://sproxy.local:8443', 'sproxy.local', 8443, True, None),
+    # the usual spelling of http_proxy / HTTP_PROXY: no scheme
+    'no-scheme-port': ('proxy.local:3128', 'proxy.local', 3128, False, None),
+    'no-scheme-ip': ('10.11.12.13:8080', '10.11.12.13', 8080, False, None),
 }
 TARGETS = {
     'ws': ('ws://target.example/chat?x=1', 'target.example', 80, False),
